@@ -34,6 +34,26 @@ def rand_attrs(rng, version, name=None):
             if rng.random() < 0.07 and a[1] not in ("implicit_const",):
                 a = (a[0], "indirect", (a[1], a[2]))
             attrs.append(a)
+    if rng.random() < 0.04:
+        # a DIE with MANY attributes (around 16 and 32, where a reader that fetches them in batches would stumble)
+        want = rng.choice([15, 16, 17, 31, 32, 33, 40])
+        many = [("decl_file", "data1", 1), ("decl_column", "data1", 7), ("byte_size", "data1", 4), ("bit_size", "data1", 3), ("artificial", "flag", True),
+                ("accessibility", "data1", 1), ("upper_bound", "udata", 9), ("lower_bound", "udata", 1), ("alignment", "udata", 8), ("inline", "data1", 1),
+                ("prototyped", "flag", True), ("call_line", "data1", 3), ("call_column", "data1", 4), ("call_file", "data1", 1), ("count", "udata", 2),
+                ("byte_stride", "data1", 4), ("bit_stride", "data1", 3), ("start_scope", "udata", 1), ("is_optional", "flag", True), ("visibility", "data1", 1),
+                ("virtuality", "data1", 1), ("calling_convention", "data1", 1), ("identifier_case", "data1", 1), ("ordering", "data1", 1), ("mutable", "flag", True),
+                ("threads_scaled", "flag", True), ("explicit", "flag", True), ("elemental", "flag", True), ("pure", "flag", True), ("recursive", "flag", True),
+                ("main_subprogram", "flag", True), ("const_expr", "flag", True), ("enum_class", "flag", True), ("noreturn", "flag", True),
+                ("description", "string", b"d"), ("picture_string", "string", b"p"), ("decimal_scale", "data1", 2), ("digit_count", "data1", 5),
+                ("decimal_sign", "data1", 1), ("endianity", "data1", 1), ("allocated", "udata", 1), ("associated", "udata", 1), ("linkage_name", "string", b"_Zf"),
+                ("decl_line", "data1", 5), ("external", "flag", True), ("data_bit_offset", "udata", 3)]
+        rng.shuffle(many)
+        for a in many:
+            if len(attrs) >= want:
+                break
+            if a[0] not in used:
+                used.add(a[0])
+                attrs.append(a)
     return attrs
 
 
